@@ -251,7 +251,22 @@ def check_case(case):
         intended = list(sel)
     else:
         intended = missing
-    m = RANGE[sl].search(script)
+    head = script
+    if sl in ("slurm", "pbs"):
+        # (sbatch and PBS's qsub stop reading directives at the first line
+        # that is a command: anything after it is a comment to them)
+        lines = script.split("\n")
+        k = next((i for i, ln in enumerate(lines)
+                  if ln.strip() and not ln.lstrip().startswith("#")),
+                 len(lines))
+        head = "\n".join(lines[:k])
+        late = [ln for ln in lines[k:]
+                if ln.startswith({"slurm": "#SBATCH", "pbs": "#PBS"}[sl])]
+        if late:
+            vio.append((key("directive-after-command"), "the scheduler "
+                        "ignores %r: it comes after the command %r"
+                        % (late[0], lines[k])))
+    m = RANGE[sl].search(head)
     if mode == "array":
         ntasks = len(intended)
         if m:
